@@ -1,7 +1,7 @@
 (* C02 — every composite status follows from its parts (CNF, when, blocks, rule, file).
    Pinned statements only. *)
 From GV.Model Require Import SEval Wf.
-From GV.Proofs Require Import StatusProps EvalLaws.
+From GV.Proofs Require Import StatusProps EvalLaws FuelProps.
 
 (* a line of `or`-joined clauses, any number of alternatives, any clause evaluator *)
 Theorem C02_or_line : forall T (f : T -> M status) line s st recs s',
@@ -96,3 +96,17 @@ Theorem C02_node_status : forall A (m : M A) mk s a recs s',
   exists r, recs = [r] /\ container_status (rec_container r) = container_status (mk a).
 Proof. exact @node_status. Qed.
 Print Assumptions C02_node_status.
+
+(* the fuel of the model only decides whether an evaluation finishes: whatever is answered with some fuel (a status, an
+   error, a panic site) is answered with any larger fuel - so the statuses above do not depend on it *)
+Theorem C02_fuel_irrelevant : forall re conv prog (n m : nat) doc,
+  (n <= m)%nat ->
+  eval_file re conv prog n doc <> OutOfFuel ->
+  eval_file re conv prog m doc = eval_file re conv prog n doc.
+Proof. exact eval_file_fuel_irrelevant. Qed.
+Print Assumptions C02_fuel_irrelevant.
+
+Theorem C02_fuel_monotone : forall re conv prog (n m : nat),
+  (n <= m)%nat -> ev_le (evalN re conv prog n) (evalN re conv prog m).
+Proof. exact evalN_mono. Qed.
+Print Assumptions C02_fuel_monotone.
